@@ -143,6 +143,26 @@ def leading_zero_y_scalars(limit=16):
     return out
 
 
+def fingerprint_collisions():
+    """Committed corpus of scalar pairs whose public keys share the 4-byte BIP32 fingerprint HASH160(serP(K))[:4] (found
+    by a birthday search over ~10^5 consecutive scalars; re-verified at load).  Anything keyed by a fingerprint - a
+    truncated identifier - confuses such keys."""
+    import json
+    import os
+    from .ref import hashes
+    p = os.path.join(os.path.dirname(os.path.dirname(os.path.abspath(__file__))), "corpus", "fp_collisions.json")
+    if not os.path.exists(p):
+        return []
+    out = []
+    for a, b, _fp in json.load(open(p)):
+        a, b = int(a, 16), int(b, 16)
+        fa = hashes.hash160(secp.ser(secp.gmul(a), True))[:4]
+        fb = hashes.hash160(secp.ser(secp.gmul(b), True))[:4]
+        if a != b and fa == fb:
+            out.append((a, b))
+    return out
+
+
 _CONF = {}
 _CONF_CASE = {}
 
